@@ -29,3 +29,36 @@ Proof. exact byte_offset_of_old_refuted. Qed.
 Example c04_example : linecol [233; 9; 13; 10; 26085; 120] 5 = (2, 1)
                       /\ byte_offset_of [233; 9; 13; 10; 26085; 120] 2 1 = 8.
 Proof. split; reflexivity. Qed.
+
+(* ---- expansion-time half: which tokens anchor a node (Nodes.location mirrors
+   Pattern::location; it is compared with the real one through the token-exact expander
+   correspondence, and with the generator's own record of where it wrote every
+   sub-pattern on every run) ------------------------------------------------------- *)
+From ASModel Require Import Tokens Report Ast Nodes.
+From ASProofs Require Import LocP.
+
+(* a leaf is marked from the start of its first token to the end of its last token; under a
+   stable rustc (Span::join unavailable) to the end of its first token: in both cases the
+   range starts on the pattern's first token and stays inside the pattern *)
+Theorem c04_leaf_anchor_joined : forall id e t r,
+  u_toks e = t :: r -> tok_span t <> SCall -> tok_span (last r t) <> SCall ->
+  location true (PSimple id e) = mkloc (span_start (tok_span t)) (span_end (tok_span (last r t))).
+Proof. exact location_leaf_joined. Qed.
+Print Assumptions c04_leaf_anchor_joined.
+
+Theorem c04_leaf_anchor_unjoined : forall id e t r,
+  u_toks e = t :: r -> location false (PSimple id e) = mkloc (span_start (tok_span t)) (span_end (tok_span t)).
+Proof. exact location_leaf_unjoined. Qed.
+Print Assumptions c04_leaf_anchor_unjoined.
+
+(* composites are anchored on their own opening token or path, never on a child *)
+Theorem c04_composite_anchor : forall j id sp rest elems entries path r fields a b,
+  p_first path = Some a -> p_last path = Some b ->
+  location j (PSlice id sp elems) = mkloc (span_start sp) (span_end sp) /\
+  location j (PTuple id sp (map (fun p => (None, p)) elems)) = mkloc (span_start sp) (span_end sp) /\
+  location j (PSet id sp rest elems) = mkloc (span_start sp) (span_end sp) /\
+  location j (PMap id sp rest entries) = mkloc (span_start sp) (span_end sp) /\
+  location j (PStruct id (Some path) r fields) = mkloc (span_start a) (span_end b) /\
+  location j (PEnum id path (map (fun p => (None, p)) elems)) = mkloc (span_start a) (span_end b).
+Proof. exact location_composites. Qed.
+Print Assumptions c04_composite_anchor.
